@@ -172,7 +172,10 @@ func NewLocation(ctx *Context, name string, state State, ctrl *Control) (*Locati
 
 	// ToDo: CacheExpires default duration.
 	// loc := Location{sync.RWMutex{}, name, false, nil, ctrl, state, ServiceStats{}, false}
-	loc := Location{sync.RWMutex{}, name, false, nil, nil, state, 0, ServiceStats{}, false, "", sync.RWMutex{}, sync.Mutex{}, nil}
+	// The given control (say the one the System found for the
+	// location's group) is the location's control.  Without one,
+	// Control() falls back to the default.
+	loc := Location{sync.RWMutex{}, name, false, nil, ctrl, state, 0, ServiceStats{}, false, "", sync.RWMutex{}, sync.Mutex{}, nil}
 
 	return &loc, loc.init(ctx)
 }
